@@ -37,7 +37,7 @@ variable (sp : Str → Option (Str × Str))
 
 /-- the host re-joined from the `h` stems -/
 def joinedHost (sa : Bool) (n : Str) : Str :=
-  if sa then hostJoined (specHost n) (hostSplit sp n) else specHost n
+  if sa then hostJoined (specHost n) (lowerHostname n) (hostSplit sp n) else specHost n
 
 theorem hostStems_values (sa : Bool) (n : Str) :
     (hostStems sp sa n (specHost n)).map (·.2) ≠ [] ∧
@@ -46,7 +46,7 @@ theorem hostStems_values (sa : Bool) (n : Str) :
   unfold joinedHost
   cases sa with
   | false => simpa using values_normalHostStems (specHost n)
-  | true => simpa using values_hostStemsOfSplit (specHost n) (hostSplit sp n)
+  | true => simpa using values_hostStemsOfSplit (specHost n) (lowerHostname n) (hostSplit sp n)
 
 theorem joinedHost_of_stems_eq (sa : Bool) (nu nv : Str)
     (h : hostStems sp sa nu (specHost nu) = hostStems sp sa nv (specHost nv)) :
@@ -87,41 +87,140 @@ def NamesOrEqual (u v : Parts) : Prop :=
   specHost u.netloc = specHost v.netloc ∨
     (labelHost (specHost u.netloc) = true ∧ labelHost (specHost v.netloc) = true)
 
-theorem rejoin_length (d s : Str) : s.length ≤ (rejoin d s).length := by
-  unfold rejoin; split <;> simp; omega
+/-- where the suffix-aware mode splits the host (a plain host of the grammar), the lower-cased
+`.hostname` is the lower-cased host -/
+theorem lowerHostname_of_split {n : Str} (hwf : wfNetloc n = true) {ds : Str × Str}
+    (h : hostSplit sp n = some ds) : lowerHostname n = lower (specHost n) := by
+  obtain ⟨_, _, _, hh, _⟩ := wfNetloc_shape hwf
+  rcases hh with ⟨inner, hin, _⟩ | hp
+  · rw [hostSplit_bracketed sp hin] at h; cases h
+  · exact lower_pyHostname_plain hwf hp
 
-theorem rejoin_inj {d1 d2 s : Str} (h : rejoin d1 s = rejoin d2 s) : d1 = d2 := by
-  unfold rejoin at h
-  by_cases h1 : d1 = [] <;> by_cases h2 : d2 = [] <;> simp only [h1, h2, if_true, if_false] at h
-  · rw [h1, h2]
-  · have := congrArg List.length h; simp at this; omega
-  · have := congrArg List.length h; simp at this; omega
-  · exact List.append_cancel_right h
+/-- the domain part is determined by the host the stems spell -/
+theorem rejoinHost_inj {hn d1 d2 s : Str} (h : rejoinHost hn d1 s = rejoinHost hn d2 s) : d1 = d2 := by
+  unfold rejoinHost at h
+  have h := List.append_cancel_right h
+  by_cases hc : s.length < (rstripChars hn ['.']).length
+  · simp only [hc, or_true, if_true] at h
+    exact List.append_cancel_right h
+  · by_cases h1 : d1 = [] <;> by_cases h2 : d2 = [] <;>
+      simp only [h1, h2, hc, ne_eq, not_true_eq_false, not_false_eq_true, or_self, or_false,
+        or_true, if_true, if_false] at h
+    · rw [h1, h2]
+    · have := congrArg List.length h; simp at this; omega
+    · have := congrArg List.length h; simp at this; omega
+    · exact List.append_cancel_right h
 
-/-- suffix-aware host stems of a whole-label subdomain with the same suffix -/
-theorem splitStems_prefix {du dv s pre : Str} (h0 : Str) (h1 : Str)
-    (h : rejoin dv s = pre ++ '.' :: rejoin du s) :
-    hostStemsOfSplit h0 (some (du, s)) <+: hostStemsOfSplit h1 (some (dv, s)) := by
-  simp only [hostStemsOfSplit, List.cons_prefix_cons, true_and]
-  by_cases hdu : du = []
-  · simp [hdu]
-  · simp only [hdu, ne_eq, not_false_eq_true, if_true]
-    have eu : rejoin du s = du ++ '.' :: s := by simp [rejoin, hdu]
-    by_cases hdv : dv = []
-    · exfalso
-      rw [eu] at h
-      simp only [rejoin, hdv, if_true] at h
-      have := congrArg List.length h
-      simp at this
-      omega
-    · simp only [hdv, ne_eq, not_false_eq_true, if_true]
-      have ev : rejoin dv s = dv ++ '.' :: s := by simp [rejoin, hdv]
-      rw [eu, ev] at h
+theorem dropWhile_dots_append (x y : Str) (hx : x.dropWhile (fun c => ['.'].contains c) ≠ []) :
+    (x ++ y).dropWhile (fun c => ['.'].contains c) = x.dropWhile (fun c => ['.'].contains c) ++ y := by
+  induction x with
+  | nil => simp at hx
+  | cons c x ih =>
+    by_cases hc : ['.'].contains c = true
+    · simp only [List.cons_append, List.dropWhile_cons, hc, if_true] at hx ⊢
+      exact ih hx
+    · simp only [List.cons_append, List.dropWhile_cons, hc]
+      rfl
+
+/-- `rstrip(".")` leaves alone what precedes a tail that is not made of dots only -/
+theorem rstrip_append_of_ne {a b : Str} (h : rstripChars b ['.'] ≠ []) :
+    rstripChars (a ++ b) ['.'] = a ++ rstripChars b ['.'] := by
+  unfold rstripChars at h ⊢
+  have h' : b.reverse.dropWhile (fun c => ['.'].contains c) ≠ [] := by simpa using h
+  rw [List.reverse_append, dropWhile_dots_append _ _ h', List.reverse_append, List.reverse_reverse]
+
+theorem rstrip_append_dots (a : Str) (k : Nat) :
+    rstripChars (a ++ List.replicate k '.') ['.'] = rstripChars a ['.'] := by
+  induction k with
+  | zero => simp
+  | succ k ih =>
+    rw [List.replicate_succ', ← List.append_assoc, rstripChars_append_dot, ih]
+
+theorem rstrip_length_le (a : Str) : (rstripChars a ['.']).length ≤ a.length := by
+  have := congrArg List.length (rstrip_dots_append a)
+  simp only [List.length_append, List.length_replicate] at this
+  omega
+
+theorem replicate_snoc_prefix {α : Type} (x : α) (m n : Nat) (rest : List α) (h : m ≤ n) :
+    List.replicate m x ++ [x] <+: List.replicate n x ++ x :: rest := by
+  obtain ⟨j, rfl⟩ := Nat.exists_eq_add_of_le h
+  rw [← List.replicate_append_replicate, List.append_assoc]
+  apply (List.prefix_append_right_inj _).2
+  cases j with
+  | zero => simp
+  | succ j => simp [List.replicate_succ]
+
+/-- suffix-aware host stems of a whole-label subdomain with the same suffix: `Lu`, `pre.Lu` the
+lower-cased hostnames, which the stems spell (`SplitLaw`) — trailing dots and a lone leading dot
+included (the empty labels are stems since FX-C12-EMPTYLABELS) -/
+theorem splitStems_prefix {du dv s pre Lu : Str} (h0 : Str) (h1 : Str)
+    (hu : rejoinHost Lu du s = Lu)
+    (hv : rejoinHost (pre ++ '.' :: Lu) dv s = pre ++ '.' :: Lu) :
+    hostStemsOfSplit h0 Lu (some (du, s)) <+:
+      hostStemsOfSplit h1 (pre ++ '.' :: Lu) (some (dv, s)) := by
+  by_cases hX : rstripChars Lu ['.'] = []
+  · -- `Lu` is made of dots only: both suffix stems are empty
+    have hLu : List.replicate Lu.length '.' = Lu := by
+      have := rstrip_dots_append Lu
+      rw [hX] at this
+      simpa using this
+    have hin : (if du ≠ [] ∨ s.length < 0 then du ++ '.' :: s else s) = [] := by
+      unfold rejoinHost at hu
+      rw [hX] at hu
+      simp only [List.length_nil, Nat.sub_zero] at hu
+      exact List.append_cancel_right (hu.trans (by rw [List.nil_append]; exact hLu.symm))
+    have hdu : du = [] := by
+      by_cases h : du = []
+      · exact h
+      · simp [h] at hin
+    have hs : s = [] := by simpa [hdu] using hin
+    subst hdu; subst hs
+    have hXv : rstripChars (pre ++ '.' :: Lu) ['.'] = rstripChars pre ['.'] := by
+      have : pre ++ '.' :: Lu = pre ++ List.replicate (Lu.length + 1) '.' := by
+        rw [List.replicate_succ, hLu]
+      rw [this, rstrip_append_dots]
+    simp only [hostStemsOfSplit, hX, hXv, List.length_nil, Nat.sub_zero, ne_eq, not_true_eq_false,
+      Nat.lt_irrefl, or_self, if_false]
+    apply replicate_snoc_prefix
+    have := rstrip_length_le pre
+    simp only [List.length_append, List.length_cons]
+    omega
+  · have hXv : rstripChars (pre ++ '.' :: Lu) ['.'] = pre ++ '.' :: rstripChars Lu ['.'] := by
+      have : pre ++ '.' :: Lu = (pre ++ ['.']) ++ Lu := by simp
+      rw [this, rstrip_append_of_ne hX]; simp
+    have hk : (pre ++ '.' :: Lu).length - (pre ++ '.' :: rstripChars Lu ['.']).length =
+        Lu.length - (rstripChars Lu ['.']).length := by
+      have := rstrip_length_le Lu
+      simp only [List.length_append, List.length_cons]; omega
+    simp only [hostStemsOfSplit, hXv, hk]
+    apply (List.prefix_append_right_inj _).2
+    simp only [List.cons_prefix_cons, true_and]
+    by_cases hcu : du ≠ [] ∨ s.length < (rstripChars Lu ['.']).length
+    · simp only [hcu, if_true]
+      -- what the stems of `u` and of `v` spell before the trailing dots
+      have eu : du ++ '.' :: s = rstripChars Lu ['.'] := by
+        unfold rejoinHost at hu
+        simp only [hcu, if_true] at hu
+        exact List.append_cancel_right (hu.trans (rstrip_dots_append Lu).symm)
+      have hcv : dv ≠ [] ∨ s.length < (pre ++ '.' :: rstripChars Lu ['.']).length := by
+        right; rw [← eu]; simp; omega
+      simp only [hcv, if_true]
+      have ev : dv ++ '.' :: s = pre ++ '.' :: rstripChars Lu ['.'] := by
+        unfold rejoinHost at hv
+        rw [hXv, hk] at hv
+        simp only [hcv, if_true] at hv
+        have := rstrip_dots_append Lu
+        have e2 : pre ++ '.' :: Lu = (pre ++ '.' :: rstripChars Lu ['.']) ++
+            List.replicate (Lu.length - (rstripChars Lu ['.']).length) '.' := by
+          rw [List.append_assoc, List.cons_append, this]
+        exact List.append_cancel_right (hv.trans e2)
       have : dv = pre ++ '.' :: du := by
         apply List.append_cancel_right (bs := '.' :: s)
-        simpa using h
+        rw [ev, ← eu]; simp
       rw [this, labelStems_sub]
       exact List.prefix_append _ _
+    · simp only [hcu, if_false]
+      exact List.nil_prefix
 
 /-! ## serialisation -/
 
@@ -280,11 +379,17 @@ theorem stems_prefix_of_under_partial (u v : Parts) (hwu : wfNetloc u.netloc = t
     simp only [hostStems_spec, if_true]
     rcases hsame with ⟨a, b⟩ | ⟨du, dv, s, a, b⟩
     · rw [a, b]; simp [hostStemsOfSplit, e]
-    · rw [a, b]
+    · have lu := lowerHostname_of_split sp hwu a
+      have lv := lowerHostname_of_split sp hwv b
+      rw [a, b]
       have : du = dv := by
-        apply rejoin_inj (s := s)
-        rw [hsu du s a, hsv dv s b, e]
-      rw [this]; rfl
+        apply rejoinHost_inj (hn := lower (specHost u.netloc)) (s := s)
+        have h1 := hsu du s a
+        have h2 := hsv dv s b
+        rw [lu] at h1
+        rw [lv, ← e] at h2
+        rw [h1, h2]
+      rw [this, lu, lv, e]
   · intro hs
     simp only [id] at hs
     obtain ⟨pre, hpre⟩ := strictSub_iff.mp hs
@@ -296,10 +401,16 @@ theorem stems_prefix_of_under_partial (u v : Parts) (hwu : wfNetloc u.netloc = t
       · rw [e]; exact List.prefix_refl _
       · rw [normalHostStems_of_labelHost l1, normalHostStems_of_labelHost l2, hpre, labelStems_sub]
         exact List.prefix_append _ _
-    · rw [a, b]
-      apply splitStems_prefix (pre := lower pre)
-      rw [hsu du s a, hsv dv s b, hpre, lower_append, lower_cons]
-      simp [lowerChar]
+    · have lu := lowerHostname_of_split sp hwu a
+      have lv := lowerHostname_of_split sp hwv b
+      have elv : lower (specHost v.netloc) = lower pre ++ '.' :: lower (specHost u.netloc) := by
+        rw [hpre, lower_append, lower_cons]; simp [lowerChar]
+      have h1 := hsu du s a
+      have h2 := hsv dv s b
+      rw [lu] at h1
+      rw [lv, elv] at h2
+      rw [a, b, lu, lv, elv]
+      exact splitStems_prefix _ _ h1 h2
 
 /-- the cleaned stems of a well-formed stem list of a URL: non-empty, no `|` -/
 theorem clean_stems_ok_of (sa : Bool) (p : Parts) (ok : StemsOK (lruStems sp sa p)) :
